@@ -17,7 +17,7 @@ from __future__ import annotations
 import z3
 
 from pyvc import netmodel
-from pyvc.values import SV, CV, XV, PV, B, I, R, EngineError, to_z, Opaque
+from pyvc.values import SV, CV, XV, PV, B, I, R, EngineError, to_z, to_pv, Opaque
 from pyvc.arrays import Space, Arr, Mat
 from pyvc.containers import PDict
 from pyvc.interp import Native
@@ -133,3 +133,47 @@ def run(vc):
                 p.prove(f"feeders[{case}]: |r + j x| = c / (s_sc / S_base)", r * r + x * x == z * z,
                         note="IEC 60909 network feeder: Z = c Un^2 / S''k with the voltage factor of the feeder's own node, R / X = rx", **lem)
         vc.explore(f"_add_ext_grid_sc_impedance[{case}]", h, max_paths=20)
+
+
+def run_sgen(vc):
+    """_add_sgen_sc_z: asynchronous and doubly-fed generators are further sources at their nodes: their admittances are *added* to what the
+    node already holds (network feeders, synchronous generators, motors, wards), once per node through the distinct keys of the grouping."""
+    SC = "pandapower.shortcircuit.ppc_conversion"
+    iu = consts("pandapower.pypower.idx_bus")
+
+    def h(p):
+        sg = pm.table("sgen", {"bus": I, "in_service": B, "generator_type": PV, "kappa": R, "max_ik_ka": R, "rx": R, "sn_mva": R, "lrc_pu": R})
+        bus_t = pm.table("bus", {"vn_kv": R})
+        lsp = Space.get("label:bus")
+        bl = Arr(lsp, SV(z3.Function("bus_lookup", I, I)(lsp.i)))
+        bus = BusMat("ppcbus", {"all": Space.get("ppcbus")})
+        net = netmodel.Net({"sgen": sg, "bus": bus_t, "_pd2ppc_lookups": PDict({"bus": bl})}, strict=True)
+        p.assume(sg.space.n > 0)
+        p.it.summaries["pandapower.auxiliary:_sum_by_group"] = _sum_by_group
+        me = p.it.modenv(SC)
+        if me.has("_sum_by_group"):
+            me.vals["_sum_by_group"] = Native(_sum_by_group, name="_sum_by_group")
+        out = p.call(f"{SC}:_add_sgen_sc_z", net, PDict({"bus": bus}))
+        if out.raised:
+            raise EngineError(f"_add_sgen_sc_z raised {out.exc!r}")
+        adds = getattr(bus, "adds", [])
+        stores = getattr(bus, "group_stores", {})
+        meta = dict(part="sgen-sc")
+        p.prove("sgen sources: GS / BS of a node are never overwritten", iu.GS not in stores and iu.BS not in stores, meta=meta,
+                note="an assignment through the group keys replaces the admittances of the feeders, generators and motors at the node")
+        c = sg.cols
+        for gtype in ("async_doubly_fed", "async"):
+            sel = z3.And(to_z(c["in_service"]), c["generator_type"].z == to_pv(gtype))
+            mine = [(k, col, a) for k, col, a in adds if isinstance(k, GK) and isinstance(k.b, Arr) and a is not None and isinstance(a, GroupSum) and a.b is k.b
+                    and k.b.mask is not True and z3.is_true(z3.simplify(k.b.mask == sel))]
+            present = _exists(p, sg, sel)
+            p.prove(f"sgen sources[{gtype}]: the admittances of the in-service generators of this type are added to GS and BS once each",
+                    z3.Or(z3.Not(present), z3.BoolVal(sorted(col for _, col, _ in mine) == sorted([iu.GS, iu.BS]))), meta=meta)
+    vc.explore("_add_sgen_sc_z", h, max_paths=60)
+
+
+def _exists(p, table, mask):
+    """some row of the table satisfies the mask on this path (decided by the code through len(selection) > 0)"""
+    from pyvc.arrays import _count
+    return _count(p.it, table.space, z3.simplify(mask)) > 0
+
